@@ -1,14 +1,14 @@
 package main
 
 import (
-	"strconv"
 	"fmt"
-	"os"
 	"go/constant"
 	"go/token"
 	"go/types"
+	"os"
 	"regexp"
 	"sort"
+	"strconv"
 	"strings"
 
 	"golang.org/x/tools/go/ssa"
@@ -46,7 +46,7 @@ type World struct {
 	prog        *ssa.Program
 	binders     []binderT
 	extDone     map[string]bool
-	curPC       string // path condition of the instruction being executed ("" outside execution)
+	curPC       string  // path condition of the instruction being executed ("" outside execution)
 	events      []event // asserts and checks in program order: a check sees only earlier asserts
 }
 
@@ -352,11 +352,11 @@ func (s *State) clone() *State {
 type Addr struct {
 	kind  string // cell, heap, elem, unknown
 	alloc *ssa.Alloc
-	key   string // heap key
-	ref   Term   // heap ref or elem base
-	idx   Term   // elem index (relative to the slice)
-	slice Term   // elem: the slice value
-	path  []int  // nested by-value struct field path
+	key   string     // heap key
+	ref   Term       // heap ref or elem base
+	idx   Term       // elem index (relative to the slice)
+	slice Term       // elem: the slice value
+	path  []int      // nested by-value struct field path
 	typ   types.Type // type of the root object (cell/heap field/elem), before path
 }
 
@@ -653,37 +653,37 @@ type Oblig struct {
 // ---------- generator ----------
 
 type Gen struct {
-	w        *World
-	f        *ssa.Function
-	ctr      *Contract
-	all      map[string]*Contract
-	vals     map[ssa.Value]Term
-	addrs    map[ssa.Value]Addr
-	extr     map[string]Term
-	escaping map[*ssa.Alloc]bool
-	obs      []Oblig
-	entry    *State
-	params   map[string]*ssa.Parameter
-	ghostOld map[string]Term
-	notes    []string
-	loopOrd  map[*ssa.BasicBlock]int
-	curBlock *ssa.BasicBlock
-	curPos   token.Pos
-	loopRI   map[int]*ssa.Alloc
-	loopRR   map[int]ssa.Value
-	atCallUsed map[string]bool
-	callCount map[string]int
-	curState *State
-	selemByKey map[string]string
-	inlining  int
-	outerDefers [][]*ssa.Defer
-	panicking bool
-	recovered bool
-	sliceTerms []string // every slice-sorted term seen so far (for freshness of new backing arrays)
-	staticDead map[*ssa.BasicBlock]bool
-	fvBind     map[string]ssa.Value // while a literal's contract is applied at its call site: captured variable name -> its address in the caller
-	symPanicking *Term              // verifying a `recovers` function stand-alone: whether it runs because of a panic
-	arrBase  map[*ssa.Alloc]Term
+	w            *World
+	f            *ssa.Function
+	ctr          *Contract
+	all          map[string]*Contract
+	vals         map[ssa.Value]Term
+	addrs        map[ssa.Value]Addr
+	extr         map[string]Term
+	escaping     map[*ssa.Alloc]bool
+	obs          []Oblig
+	entry        *State
+	params       map[string]*ssa.Parameter
+	ghostOld     map[string]Term
+	notes        []string
+	loopOrd      map[*ssa.BasicBlock]int
+	curBlock     *ssa.BasicBlock
+	curPos       token.Pos
+	loopRI       map[int]*ssa.Alloc
+	loopRR       map[int]ssa.Value
+	atCallUsed   map[string]bool
+	callCount    map[string]int
+	curState     *State
+	selemByKey   map[string]string
+	inlining     int
+	outerDefers  [][]*ssa.Defer
+	panicking    bool
+	recovered    bool
+	sliceTerms   []string // every slice-sorted term seen so far (for freshness of new backing arrays)
+	staticDead   map[*ssa.BasicBlock]bool
+	fvBind       map[string]ssa.Value // while a literal's contract is applied at its call site: captured variable name -> its address in the caller
+	symPanicking *Term                // verifying a `recovers` function stand-alone: whether it runs because of a panic
+	arrBase      map[*ssa.Alloc]Term
 }
 
 func (g *Gen) note(format string, a ...interface{}) {
@@ -1887,6 +1887,15 @@ func (g *Gen) call0(c *ssa.CallCommon, res ssa.Value, st *State, pos token.Pos) 
 		} else if spread && isSlice(args[1].Type()) {
 			y := av(1)
 			w.assume(fmt.Sprintf("(forall ((j Int)) (! (=> (and (<= 0 j) (< j (slen %s))) (= (%s %s %s (+ (slen %s) j)) (%s %s %s j))) :pattern ((%s %s %s j))))", y.S, sel, nh.S, r.S, x.S, sel, arr.S, y.S, sel, arr.S, y.S))
+			// the same fact keyed on the RESULT's element (so that a goal about result[j] finds it); only for a real
+			// `append(a, b...)`: the varargs temporary of `append(a, x)` gets ground facts below
+			isTemp := false
+			if sli, ok := args[1].(*ssa.Slice); ok {
+				_, isTemp = sli.X.(*ssa.Alloc)
+			}
+			if !isTemp {
+				w.assume(fmt.Sprintf("(forall ((j Int)) (! (=> (and (<= (slen %s) j) (< j (slen %s))) (= (%s %s %s j) (%s %s %s (- j (slen %s))))) :pattern ((%s %s %s j))))", x.S, r.S, sel, nh.S, r.S, sel, arr.S, y.S, x.S, sel, nh.S, r.S))
+			}
 			// varargs temporaries have a small static length: state the copied elements as ground facts too
 			if sli, ok := args[1].(*ssa.Slice); ok {
 				if al, ok := sli.X.(*ssa.Alloc); ok {
@@ -2552,7 +2561,9 @@ func (g *Gen) frameAxioms(ctr *Contract, pre, post *State) {
 
 var structRegistry = map[string]*types.Struct{}
 
-func (g *Gen) structByKey(k string) *types.Struct { return structRegistry[strings.TrimPrefix(k, "obj:")] }
+func (g *Gen) structByKey(k string) *types.Struct {
+	return structRegistry[strings.TrimPrefix(k, "obj:")]
+}
 
 func registerStruct(t types.Type) {
 	if p, ok := t.Underlying().(*types.Pointer); ok {
@@ -2694,6 +2705,7 @@ func (g *Gen) checkEnsures(ret *ssa.Return, st *State) {
 		}
 		g.addObNoAssume("cover", fmt.Sprintf("reachable_return@%d", g.w.prog.Fset.Position(cp).Line), cp, st, "false")
 	}
+	g.checkGlobalInvariants(ret, st)
 	if g.ctr == nil {
 		return
 	}
@@ -2716,6 +2728,40 @@ func (g *Gen) checkEnsures(ret *ssa.Return, st *State) {
 			pos = g.curPos
 		}
 		g.addObNoAssume("post", e.Label+g.retSuffix(ret), pos, st, t.S)
+	}
+}
+
+// checkGlobalInvariants: a unit's `invariant` over package-level state is assumed at the entry of every function of the
+// unit; a function of the unit that changed any heap must re-establish it at each return (exit obligation). Functions that
+// leave every heap as it was get no obligation (it would repeat the assumption).
+func (g *Gen) checkGlobalInvariants(ret *ssa.Return, st *State) {
+	if len(globalInvariants) == 0 || g.entry == nil || g.inlining != 0 {
+		return
+	}
+	changed := false
+	for k, h1 := range st.heap {
+		if k == "alloc" {
+			continue
+		}
+		if h0, had := g.entry.heap[k]; !had || h0.S != h1.S {
+			changed = true
+			break
+		}
+	}
+	if !changed {
+		return
+	}
+	pos := ret.Pos()
+	if !pos.IsValid() {
+		pos = g.curPos
+	}
+	env := &SpecEnv{g: g, st: st, old: g.entry, fn: g.f, argOverride: map[string]Term{}, bound: map[string]Term{}, role: roleAssert}
+	for _, gi := range globalInvariants {
+		t, err := env.evalBool(gi.Expr)
+		if err != nil {
+			continue // reported at entry
+		}
+		g.addObNoAssume("post", "invariant_kept["+gi.Label+"]"+g.retSuffix(ret), pos, st, t.S)
 	}
 }
 
